@@ -68,15 +68,101 @@ def generate(ctx):
         cases.append({"op": rng.choice(["is_equivalent_to", "is_equivalent_to", "eq"]), "fa": a, "fb": b})
     for _ in range(100 if ctx.tier == "quick" else 1500):
         cases.append(fa_engine.rand_dfa_history(rng))
+    for _ in range(8 if ctx.tier == "quick" else 64):
+        cases.append({"op": "hopcroft_search", "seed": rng.randrange(10 ** 9), "count": 400, "fa": {"states": [], "profile": "search"}})
     return cases
 
 
+# ---- search stage for the partition refinement: many mid-sized DFAs, pre-filtered in Python; only the suspects go to the certified judge ----
+def _trim_minimal_count(spec):
+    """number of states of the minimal trim DFA of a deterministic spec (independent Moore refinement)"""
+    vk = falib.vkey
+    delta = {(vk(s), a): vk(t) for s, a, t in spec["trans"]}
+    syms = list(spec["symbols"])
+    reach, todo = set(), [vk(x) for x in spec["starts"]]
+    while todo:
+        q = todo.pop()
+        if q in reach:
+            continue
+        reach.add(q)
+        todo += [delta[(q, a)] for a in syms if (q, a) in delta]
+    finals = {vk(x) for x in spec["finals"]} & reach
+    co, changed = set(finals), True
+    while changed:
+        changed = False
+        for (q, a), t in delta.items():
+            if q in reach and t in co and q not in co:
+                co.add(q)
+                changed = True
+    live = reach & co
+    cls = {q: (q in finals) for q in live}
+    while True:
+        sig = {q: (cls[q], tuple(cls.get(delta.get((q, a))) for a in syms)) for q in live}
+        if len(set(sig.values())) == len(set(cls.values())):
+            return len(set(sig.values()))
+        cls = sig
+
+
+def _accepts(spec, w):
+    vk = falib.vkey
+    delta = {(vk(s), a): vk(t) for s, a, t in spec["trans"]}
+    cur = [vk(x) for x in spec["starts"]]
+    if len(cur) != 1:
+        return False
+    q = cur[0]
+    for a in w:
+        q = delta.get((q, a))
+        if q is None:
+            return False
+    return q in {vk(x) for x in spec["finals"]}
+
+
+def _search(case):
+    import random
+    rng = random.Random(case["seed"])
+    suspects, tried = [], 0
+    for _ in range(case["count"]):
+        spec = falib.rand_big_dfa(rng)
+        tried += 1
+        try:
+            x = falib.extract_fa(falib.build_fa(spec).minimize())
+        except Exception:
+            suspects.append(spec)
+        else:
+            k = len(spec["symbols"])
+            ws = falib.words_upto(spec["symbols"], 7 if k == 2 else 5)
+            det = len({(falib.vkey(s), a) for s, a, t in x["trans"]}) == len(x["trans"]) and all(a is not None for s, a, t in x["trans"])
+            t_count = _trim_minimal_count(spec)
+            if not det or any(_accepts(spec, w) != _accepts(x, w) for w in ws) or not (t_count <= len(x["states"]) <= t_count + 1):
+                suspects.append(spec)
+        if len(suspects) >= 3:
+            break
+    return {"tried": tried, "suspects": suspects}
+
+
 def impl(case):
+    if case["op"] == "hopcroft_search":
+        return _search(case)
     return fa_engine.impl_case(case)
 
 
 def check_cases(ctx, cases):
-    fa_engine.check_cases(ctx, "c02", cases)
+    import random
+    search = [c for c in cases if c["op"] == "hopcroft_search"]
+    rest = [c for c in cases if c["op"] != "hopcroft_search"]
+    if search:
+        obs = ctx.impl("c02", search, timeout=300)
+        for c, o in zip(search, obs):
+            if "timeout" in o or "exc" in o:
+                ctx.fail("hopcroft-search-exception", c, {"impl": o})
+                continue
+            ctx.count(o["tried"])
+            ctx.dist["hopcroft_search: DFAs (5-8 states) minimised and pre-filtered in Python"] += o["tried"]
+            for spec in o["suspects"]:
+                # a suspect is judged like any other case: language and reducedness certified in Coq
+                ctx.dist["hopcroft_search: suspects sent to the certified judge"] += 1
+                rest.append({"op": "minimize_pair", "fa": spec, "fb": variant(random.Random(c["seed"]), spec), "found_by": "hopcroft_search"})
+    fa_engine.check_cases(ctx, "c02", rest)
 
 
 shrink_candidates = fa_engine.shrink_candidates
